@@ -267,6 +267,21 @@ def c15_obligations(tier, seed):
                "c15::c15_read_in_transaction_equals_read_after_commit", [MG + "::compare_db_and_transaction_records"],
                "0..=3 committed, 0..=2 pending states, all five flags; unwind 6",
                assumes=[wf, "the database's own pick and the pending pick are the specification's picks (the latter is C15.pending_pick)"], stubs=()),
+        akd_ob("C15.bulk_read_in_tx", "the bulk query's ingredients - the database entry's version, the pending pick and the version arbiter compare_db_version_and_transaction_record - combined as "
+               "StorageManager::get_user_state_versions combines them (wiring: C15.bulk_versions) give the (version, record) of the bulk read after commit",
+               "c15::c15_bulk_read_in_transaction_equals_bulk_read_after_commit", [MG + "::compare_db_version_and_transaction_record"],
+               "0..=3 committed, 0..=2 pending states, all five flags; unwind 6",
+               assumes=[wf, "the database's own pick and the pending pick are the specification's picks (the latter is C15.pending_pick)"], stubs=()),
+        {"id": "C15.bulk_versions", "engine": "mir", "kind": "bulk",
+         "claim": "StorageManager::get_user_state_versions (async body, walked on its MIR): the database is asked first and its error returned; the transaction log is consulted exactly when a transaction is open, "
+                  "with the same users and flag; every entry written into the answer is (version, value) of ONE pending record - the one the version arbiter returned, or the pending record itself when the "
+                  "database has no entry - never a pending record's epoch and never the database's version paired with a pending value; the arbiter is given the database entry's version, the pending record "
+                  "and the caller's flag, and the answer is overwritten exactly when it returns a record. The defect F-C15 (epoch and version confused in all three places; fixed) was such a path",
+         "functions": [MG + "::get_user_state_versions"], "width": 64,
+         "bound": "every path of the coroutine with the loop over pending users executed at most once (iterations communicate only through the opaque answer map); callees are events",
+         "query_cap_s": 120, "cap_s": (600, 600), "stubs": [], "role": "bulk_versions", "instantiation": None,
+         "assumes": ["HashMap get / insert / into_iter semantics are std's", "Transaction::get_users_states applies the pending pick (C15.pending_pick) per user: not decided",
+                     "counterexamples are confirmed by native_bulk (real StorageManager over the in-memory database, in-transaction answer vs. answer after commit)"]},
         {"id": "C15.txn_log", "engine": "mir", "kind": "txn",
          "claim": "Transaction::begin_transaction succeeds exactly when no transaction is open; commit_transaction / rollback_transaction without an open transaction return Err and change nothing; "
                   "commit returns a clone of EVERY pending record exactly once, sorted by DbRecord::transaction_priority ascending (so, with C11.epoch_record_last, the epoch record last), "
